@@ -446,21 +446,24 @@ class Function:
         except Exception:
             _LOGGER.error("run_coro: got exception %s", traceback.format_exc(-1))
         finally:
-            if task in cls.task2cb:
-                for callback, info in cls.task2cb[task]["cb"].items():
-                    ast_ctx, args, kwargs = info
-                    try:
-                        await ast_ctx.call_func(callback, None, *args, **kwargs)
-                    except Exception as e:
-                        ast_ctx.log_exception(e)
-                        break
-            if task in cls.unique_task2name:
-                for name in cls.unique_task2name[task]:
-                    del cls.unique_name2task[name]
-                del cls.unique_task2name[task]
-            cls.task2context.pop(task, None)
-            cls.task2cb.pop(task, None)
-            cls.our_tasks.discard(task)
+            try:
+                if task in cls.task2cb:
+                    for callback, info in list(cls.task2cb[task]["cb"].items()):
+                        ast_ctx, args, kwargs = info
+                        try:
+                            await ast_ctx.call_func(callback, None, *args, **kwargs)
+                        except Exception as e:
+                            # one failing callback doesn't stop the others
+                            ast_ctx.log_exception(e)
+            finally:
+                # always forget the task, even if it is cancelled while the callbacks run
+                if task in cls.unique_task2name:
+                    for name in cls.unique_task2name[task]:
+                        del cls.unique_name2task[name]
+                    del cls.unique_task2name[task]
+                cls.task2context.pop(task, None)
+                cls.task2cb.pop(task, None)
+                cls.our_tasks.discard(task)
 
     @classmethod
     def create_task(cls, coro, ast_ctx=None):
